@@ -22,9 +22,7 @@ import SleapVerif.Model.Grouping
                       `2E` takes part in the `max`, as coded).
 * `lineScore`       — `score_paf_lines`: mean over the sampled points of `paf · unit(dst-src)`,
                       plus the penalty.
-* matching/grouping — `Grouping` (C08) with scipy's answer per edge as a parameter (so the same
-                      model covers the pinned code and the code after the C03 fix, which only
-                      changes the matrix scipy sees: `clampLow`).
+* matching/grouping — `Grouping.groupSample` (C08) with scipy as the parameter `lsa`.
 * `decode`          — `/ input_scale`, then `/ eff_scale[sample]`.
 * `keepTop`         — `BottomUpPredictor._make_labeled_frames_from_generator`: stable sort by
                       score, descending, first `max_instances`.
@@ -220,6 +218,8 @@ structure Cand (R : Type) where
 structure Output (R : Type) where
   cands : List (Cand R)
   conns : List (Conn R)
+  /-- `instance_assignments` after the `min_instance_peaks` filter -/
+  assign : Assign
   /-- per instance: global peak index per node type -/
   rows : List (List (Option Nat))
   scores : List R
@@ -250,37 +250,30 @@ def scoreTable (ch : List Nat) (edges : List Edge) (cands : List (Cand R)) (k : 
     (Grouping.nodePeaks ch e.1).map fun s => (Grouping.nodePeaks ch e.2).map fun d =>
       (cands.find? fun c => c.edge == k && c.src == s && c.dst == d).map (·.score)
 
-/-- `PAFScorer.predict` after scoring, with scipy's answer for edge `k` given as `answers[k]`
-(`none` = scipy raised); `order` = `sorted_edge_inds` -/
-def groupWith (P : Params R) (order : List Nat) (ch : List Nat) (cands : List (Cand R))
-    (answers : List (Option (List (Nat × Nat)))) : Except GErr (List (Conn R) × List (Inst R)) :=
-  let ms := Grouping.mapMOpt (fun k : Nat =>
-      Grouping.matchEdgeAsIs (fun _ => answers.getD k none)
-        (Grouping.costMatrix ch (P.edges.getD k (0, 0)) (scoreTable ch P.edges cands k)))
-    (List.range P.edges.length)
-  match ms with
-  | none => .error .infeasible
-  | some ms =>
-    let cs := Grouping.connections P.edges order (ms.map (Grouping.filterMinScore P.minLine))
-    let a := Grouping.assignConnections (Grouping.pairs cs) P.minPeaks P.nNodes
-    match Grouping.makeInstances cs a P.nNodes with
-    | .error e => .error e
-    | .ok insts => .ok (cs, insts)
+/-- the score tables of all edge types, as `Grouping.groupSample` takes them -/
+def scoreTables (ch : List Nat) (edges : List Edge) (cands : List (Cand R)) : List (Mat (Option R)) :=
+  (List.range edges.length).map (scoreTable ch edges cands)
 
+/-- the parameters of the grouping stage (`PAFScorer` attributes); `order` = `sorted_edge_inds` -/
+def groupParams (P : Params R) (order : List Nat) : Grouping.Params R :=
+  ⟨P.nNodes, P.edges, order, P.minLine, P.minPeaks⟩
+
+/-- `forward` for one sample: peaks → candidates and line scores → `PAFScorer.predict`'s matching
+and grouping (`Grouping.groupSample`, the pinned matching; scipy = the parameter `lsa`) → rows of
+global peak indices.  `toposort_edges` failing is `noOrder`. -/
 def forwardSample (fl : R → Int) (castI : Int → R) (sqrt : R → R) (P : Params R) (paf : Paf R)
-    (peaks : List (GPeak R)) (answers : List (Option (List (Nat × Nat)))) :
-    Except GErr (Output R) :=
+    (peaks : List (GPeak R)) (lsa : Grouping.Lsa R) : Except GErr (Output R) :=
   match Toposort.toposort P.edges with
   | none => .error .noOrder
   | some order =>
     let ch := peaks.map (·.ch)
     let cands := scoreCands fl castI sqrt P paf peaks
-    match groupWith P order ch cands answers with
+    match Grouping.groupSample false lsa (groupParams P order) ch (scoreTables ch P.edges cands) with
     | .error e => .error e
-    | .ok (cs, insts) =>
-      .ok { cands := cands, conns := cs,
-            rows := insts.map fun i => i.row.mapIdx fun n x => x.bind fun k => Grouping.globalIdx ch (n, k),
-            scores := insts.map (·.score) }
+    | .ok out =>
+      .ok { cands := cands, conns := out.conns, assign := out.assign,
+            rows := out.insts.map fun i => i.row.mapIdx fun n x => x.bind fun k => Grouping.globalIdx ch (n, k),
+            scores := out.insts.map (·.score) }
 
 /-- final coordinates of one instance row: `peak * cms_stride / input_scale / eff_scale` -/
 def rowCoords (castI : Int → R) (P : Params R) (eff : R) (peaks : List (GPeak R))
